@@ -43,6 +43,18 @@ func ValidVariants(s *Schema) []Variant {
 				m := s.Clone()
 				m.Defs[di].Fields[0].Desc = "described field"
 				add(m, "field description")
+				// one more object type that implements it (a new unit: as a later load it joins the possible types)
+				m = s.Clone()
+				impl := &Def{Kind: KObject, Name: "Zimpl" + d.Name, Implements: []string{d.Name}}
+				for _, f := range d.Fields {
+					nf := &Field{Name: f.Name, Type: cloneT(f.Type)}
+					for _, a := range f.Args {
+						nf.Args = append(nf.Args, &Arg{Name: a.Name, Type: cloneT(a.Type), HasDef: a.HasDef, Default: cloneVal(a.Default)})
+					}
+					impl.Fields = append(impl.Fields, nf)
+				}
+				m.Defs = append(m.Defs, impl)
+				add(m, "new implementer of "+d.Name)
 				continue
 			}
 			for wi, t := range []*T{N("Int"), NN(N("String")), L(N("ID")), L(L(NN(N("Float")))), NN(L(NN(N(d.Name))))} {
